@@ -107,7 +107,7 @@ deriving Repr, DecidableEq
 def startAll (fault : Fault) : Nat → List (Option (String × List (String × ClientKey))) → Mgr → Serving → List Mgr →
     (Bool × Mgr × Serving × List Mgr)
   | _, [], m, acc, tr => (true, m, acc.reverse, tr)
-  | i, none :: _, m, acc, tr => (false, m, acc.reverse, tr)
+  | _, none :: _, m, acc, tr => (false, m, acc.reverse, tr)
   | i, some (lk, ks) :: rest, m, acc, tr =>
     if fault == .bind i then (false, m, acc.reverse, tr)
     else startAll fault (i + 1) rest (lk :: m) ((lk, ks) :: acc) (tr ++ [lk :: m])
